@@ -366,6 +366,11 @@ def join_state(a, b):
                 continue
             out[k] = a.get(k, b.get(k))
             continue
+        if k[0] == "pval":
+            # value assigned to an environment parameter: unknown as soon as the paths disagree (a path without the key still
+            # has the caller's value)
+            out[k] = a[k] if (k in a and k in b and a[k] == b[k] and type(a[k]) is type(b[k])) else "?"
+            continue
         if k[0] == "val":
             # value of a flag / mode local: kept only if both paths agree (a path on which it was never set does not)
             if k in a and k in b and a[k] == b[k] and type(a[k]) is type(b[k]):
@@ -513,7 +518,7 @@ class Interp:
         if self.env:
             for x in fn.nodes():
                 t = None
-                if x.get("k") == "Assign":
+                if x.get("k") == "Assign" and x.get("op") != "=":
                     t = unwrap(x["lhs"])
                 elif x.get("k") == "Un" and x.get("op") in ("++", "--", "&"):
                     t = unwrap(x["e"])
@@ -897,8 +902,9 @@ class Interp:
         k = c.get("k")
         if k == "Bool":
             return bool(c["v"])
-        if k == "Ref" and c.get("dk") == "param" and isinstance(self.env.get(c.get("n")), bool):
-            return self.env[c["n"]]
+        if k == "Ref" and c.get("dk") == "param" and c.get("n") in self.env:
+            v = self.param_value(c)
+            return v if isinstance(v, bool) else None
         if k == "Ref" and c.get("dk") == "local":
             # named temporary for a test (`const bool copy_content(clone_mode == CloneMode::Deep)`): copy propagation;
             # a flag assigned on the way (`bool copy = false; if(mode == Deep) copy = true;`): its value on this path
@@ -966,7 +972,7 @@ class Interp:
             return self.const_of(e["then"] if v else e["else"])
         if k == "Ref":
             if e.get("dk") == "param" and e["n"] in self.env:
-                return self.env[e["n"]]
+                return self.param_value(e)
             if e.get("dk") == "enum" and e.get("v") is not None:
                 return int(e["v"])
             if e.get("dk") == "local":
@@ -1018,6 +1024,15 @@ class Interp:
                 ok = False          # a reference local denotes something else
             self._stable[d] = ok
         return self.localdefs[d] if self._stable[d] else None
+
+    def param_value(self, ref):
+        """value of an environment parameter on the current path: the caller's value, or what the function assigned to it
+        (`if(clone_mode == CloneMode::Weak) clone_mode = CloneMode::Shallow;`); None once paths disagree / the value is unknown"""
+        cur = self._cur
+        if cur is not None and ("pval", ref.get("d")) in cur:
+            v = cur[("pval", ref["d"])]
+            return None if v == "?" else v
+        return self.env.get(ref.get("n"))
 
     def tracked_value(self, ref):
         cur = self._cur
@@ -1870,6 +1885,11 @@ class Interp:
         k = n.get("k")
         if is_call(n) and n.get("noreturn"):
             return None
+        if k == "Assign" and n.get("op") == "=" and unwrap(n["lhs"]).get("k") == "Ref" and unwrap(n["lhs"]).get("dk") == "param" \
+                and unwrap(n["lhs"]).get("n") in self.env:
+            self._cur = st
+            v = self.value_of(n["rhs"])
+            st[("pval", unwrap(n["lhs"])["d"])] = "?" if v is None else v
         if k == "Assign" and unwrap(n["lhs"]).get("k") == "Ref" and unwrap(n["lhs"]).get("dk") == "local":
             self._cur = st
             self.track_value(st, unwrap(n["lhs"])["d"], n["rhs"] if n.get("op") == "=" else None)
@@ -3525,7 +3545,7 @@ class _CloneEval:
         -> (rel of this at the exits joined, rel of the returned local or None)"""
         fam = self.fam
         with _alias_scope():
-            it = Interp(fam, fn, env=env)
+            it = Interp(fam, fn, env=dict(env))
         _ALIAS.clear()
         _ALIAS.update(it.aliases)
         rel_ = {}
@@ -3733,6 +3753,14 @@ class _CloneEval:
                         return True
                     if r_ is False:
                         return False
+                return True
+            if k == "Assign" and n.get("op") == "=" and unwrap(n["lhs"]).get("k") == "Ref" and unwrap(n["lhs"]).get("dk") == "param" \
+                    and unwrap(n["lhs"]).get("n") in it.env:
+                v = it.value_of(n["rhs"])
+                if v is None:
+                    prob("%s is assigned a value the check cannot evaluate at line %s" % (unwrap(n["lhs"])["n"], n.get("l")))
+                    return False
+                it.env[unwrap(n["lhs"])["n"]] = v          # statements are evaluated in path order: the new value holds from here on
                 return True
             if k == "MCall":
                 if call_effect(n):
